@@ -8,6 +8,7 @@ import (
 	"fmt"
 	"go/token"
 	"go/types"
+	"strings"
 )
 
 type modelFn func(x *Exec, fr *Frame, st *State, args []Value, pos token.Pos, rt types.Type) (Value, bool)
@@ -88,8 +89,8 @@ func (x *Exec) isDigits(s Term) Term {
 	n := sLen(s)
 	x.vc.ctr++
 	q := Term{fmt.Sprintf("i!q%d", x.vc.ctr), SInt}
-	dig := func(i Term) Term { c := app(SInt, "sAt", s, i); return And(Le(IntLit(48), c), Le(c, IntLit(57))) }
-	x.vc.Assert(Implies(t, Term{fmt.Sprintf("(forall ((%s Int)) (! %s :pattern ((sAt %s %s))))", q.S, Implies(And(Le(IntLit(0), q), Lt(q, n)), dig(q)).S, s.S, q.S), SBool}))
+	dig := func(i Term) Term { c := x.strAt(s, i); return And(Le(IntLit(48), c), Le(c, IntLit(57))) }
+	x.vc.Assert(Implies(t, Term{fmt.Sprintf("(forall ((%s Int)) (! %s :pattern (%s)))", q.S, Implies(And(Le(IntLit(0), q), Lt(q, n)), dig(q)).S, x.strAt(s, q).S), SBool}))
 	bad := app(SInt, w, s)
 	x.vc.Assert(Implies(Not(t), And(Le(IntLit(0), bad), Lt(bad, n), Not(dig(bad)))))
 	// bounded unrolling helps the solvers for the short strings that matter
@@ -221,6 +222,10 @@ func (x *Exec) httpErrCode(st *State, a VIface) Term {
 		}
 	}
 	return IntLit(0)
+}
+
+func (e *Engine) namedPtr(pkgPath, name string) types.Type {
+	return types.NewPointer(e.namedType(pkgPath, name))
 }
 
 func (e *Engine) namedType(pkgPath, name string) types.Type {
@@ -381,10 +386,10 @@ func init() {
 			c := IntLit(int64(lit[0]))
 			x.vc.ctr++
 			q := Term{fmt.Sprintf("i!q%d", x.vc.ctr), SInt}
-			x.vc.Assert(Implies(Ge(r, IntLit(0)), Eq(app(SInt, "sAt", s, r), c)))
+			x.vc.Assert(Implies(Ge(r, IntLit(0)), Eq(x.strAt(s, r), c)))
 			lim := Ite(Ge(r, IntLit(0)), r, sLen(s))
-			x.vc.Assert(Term{fmt.Sprintf("(forall ((%s Int)) (! %s :pattern ((sAt %s %s))))", q.S,
-				Implies(And(Le(IntLit(0), q), Lt(q, lim)), Neq(app(SInt, "sAt", s, q), c)).S, s.S, q.S), SBool})
+			x.vc.Assert(Term{fmt.Sprintf("(forall ((%s Int)) (! %s :pattern (%s)))", q.S,
+				Implies(And(Le(IntLit(0), q), Lt(q, lim)), Neq(x.strAt(s, q), c)).S, x.strAt(s, q).S), SBool})
 		}
 		return VTerm{r}, true
 	})
@@ -392,7 +397,7 @@ func init() {
 		s, c := tOf(a[0]), tOf(a[1])
 		r := x.vc.Fresh("indexb", SInt)
 		x.vc.Assert(And(Ge(r, IntLit(-1)), Lt(r, Ite(Eq(sLen(s), IntLit(0)), IntLit(0), sLen(s)))))
-		x.vc.Assert(Implies(Ge(r, IntLit(0)), Eq(app(SInt, "sAt", s, r), c)))
+		x.vc.Assert(Implies(Ge(r, IntLit(0)), Eq(x.strAt(s, r), c)))
 		return VTerm{r}, true
 	})
 	regModel("net/textproto.CanonicalMIMEHeaderKey", func(x *Exec, fr *Frame, st *State, a []Value, pos token.Pos, rt types.Type) (Value, bool) {
@@ -402,10 +407,16 @@ func init() {
 	})
 	// ---- errors / fmt
 	regModel("errors.New", func(x *Exec, fr *Frame, st *State, a []Value, pos token.Pos, rt types.Type) (Value, bool) {
-		return x.plainErr(st), true
+		return x.newErrIdentity(fr, x.eng.namedPtr("errors", "errorString")), true
 	})
 	regModel("fmt.Errorf", func(x *Exec, fr *Frame, st *State, a []Value, pos token.Pos, rt types.Type) (Value, bool) {
-		return x.nonNilErr(st, "errorf"), true
+		if f, ok := x.constString(tOf(a[0])); ok && !strings.Contains(f, "%w") {
+			return x.newErrIdentity(fr, x.eng.namedPtr("fmt", "wrapError")), true
+		}
+		e := x.nonNilErr(st, "errorf")
+		x.vc.Assert(Neq(e.Tag, IntLit(x.connErrTag())))
+		x.vc.Assert(Neq(e.Tag, IntLit(x.httpErrTag())))
+		return e, true
 	})
 	regModel("errors.Is", func(x *Exec, fr *Frame, st *State, a []Value, pos token.Pos, rt types.Type) (Value, bool) {
 		ea, ok1 := a[0].(VIface)
@@ -468,6 +479,37 @@ func init() {
 	})
 }
 
+// newErrIdentity: a freshly created error value that wraps nothing: errors.Is(e, t) iff t == e.
+func (x *Exec) newErrIdentity(fr *Frame, tagType types.Type) VIface {
+	e := VIface{IntLit(x.eng.typeTag(tagType)), x.newRef(fr)}
+	x.vc.ctr++
+	a := fmt.Sprintf("tt!q%d", x.vc.ctr)
+	b := fmt.Sprintf("tv!q%d", x.vc.ctr)
+	x.vc.Assert(Term{fmt.Sprintf("(forall ((%s Int) (%s Int)) (! (=> (errIs %s %s %s %s) (and (= %s %s) (= %s %s))) :pattern ((errIs %s %s %s %s))))",
+		a, b, e.Tag.S, e.Val.S, a, b, a, e.Tag.S, b, e.Val.S, e.Tag.S, e.Val.S, a, b), SBool})
+	x.vc.Assert(app(SBool, "errIs", e.Tag, e.Val, e.Tag, e.Val))
+	return e
+}
+
+// constString evaluates a string term built from literals and concatenation.
+func (x *Exec) constString(t Term) (string, bool) {
+	if t.S == "sEmpty" {
+		return "", true
+	}
+	if s, ok := x.litValue(t); ok {
+		return s, true
+	}
+	if strings.HasPrefix(t.S, "(sCat ") {
+		parts := splitTop(t.S[1 : len(t.S)-1])
+		if len(parts) == 3 {
+			a, ok1 := x.constString(Term{parts[1], SStr})
+			b, ok2 := x.constString(Term{parts[2], SStr})
+			return a + b, ok1 && ok2
+		}
+	}
+	return "", false
+}
+
 func (x *Exec) plainErr(st *State) VIface {
 	e := x.nonNilErr(st, "errnew")
 	// errors.New values are not connect or http errors
@@ -494,14 +536,14 @@ func (x *Exec) hasPrefix(s, p Term) Term {
 		// exact: prefix iff long enough and all characters agree
 		cs := []Term{Ge(sLen(s), IntLit(int64(len(lit))))}
 		for i := 0; i < len(lit); i++ {
-			cs = append(cs, Eq(app(SInt, "sAt", s, IntLit(int64(i))), IntLit(int64(lit[i]))))
+			cs = append(cs, Eq(x.strAt(s, IntLit(int64(i))), IntLit(int64(lit[i]))))
 		}
 		x.vc.Assert(Eq(t, And(cs...)))
 	} else {
 		x.vc.ctr++
 		q := Term{fmt.Sprintf("i!q%d", x.vc.ctr), SInt}
 		x.vc.Assert(Implies(t, Term{fmt.Sprintf("(forall ((%s Int)) %s)", q.S,
-			Implies(And(Le(IntLit(0), q), Lt(q, sLen(p))), Eq(app(SInt, "sAt", s, q), app(SInt, "sAt", p, q))).S), SBool}))
+			Implies(And(Le(IntLit(0), q), Lt(q, sLen(p))), Eq(x.strAt(s, q), x.strAt(p, q))).S), SBool}))
 	}
 	return t
 }
@@ -518,7 +560,7 @@ func (x *Exec) hasSuffix(s, p Term) Term {
 	if lit, ok := x.litValue(p); ok && len(lit) <= 40 {
 		cs := []Term{Ge(sLen(s), IntLit(int64(len(lit))))}
 		for i := 0; i < len(lit); i++ {
-			cs = append(cs, Eq(app(SInt, "sAt", s, Add(Sub(sLen(s), IntLit(int64(len(lit)))), IntLit(int64(i)))), IntLit(int64(lit[i]))))
+			cs = append(cs, Eq(x.strAt(s, Add(Sub(sLen(s), IntLit(int64(len(lit)))), IntLit(int64(i)))), IntLit(int64(lit[i]))))
 		}
 		x.vc.Assert(Eq(t, And(cs...)))
 	}
